@@ -26,7 +26,10 @@ BODIES = ['True', '"True"', 'true', 'TRUE', 'True\n', ' True', 'False', '',
           # left unconstrained (ambiguous reading of "surrounding quotes")
           '"True', 'True"', '""True""',
           # undecodable without a charset: skipped
-          '\xff\xfeTrue']
+          '\xff\xfeTrue',
+          # a UTF-8 byte-order mark in front of True is not True (judged
+          # only when the reply declares its charset)
+          '\xef\xbb\xbfTrue']
 AMBIGUOUS = ('"True', 'True"', '""True""')
 STATUSES = [200, 200, 200, 201, 204, 302, 400, 401, 403, 404, 500, 503]
 HEADERS = [{}, {'Content-Type': 'text/plain; charset=utf-8'},
@@ -162,7 +165,15 @@ def gen_decision(rng):
             'lenient_transport': rng.random() < 0.4,
             'ctx_steps': gen_ctx_steps(rng, roles_u)
             if rng.random() < 0.25 else None,
-            'seq': None}
+            'seq': None,
+            # the rules may hold the expression under the default rule's
+            # name while an undefined, unregistered name is enforced: the
+            # decision falls back to the default rule, the request must
+            # still carry the enforced name
+            'via_default_rule': rng.random() < 0.12,
+            # remote_content_type written in another capitalisation (the
+            # unchanged configuration rejects that; then it is not used)
+            'content_type_case_variant': rng.random() < 0.06}
 
 
 def gen_ctx_steps(rng, roles_u):
@@ -393,8 +404,22 @@ def run_decision(d, dg=None, cnt=None):
         def apply_options():
             conf.set_override('remote_timeout', cur['timeout'],
                               group='oslo_policy')
-            conf.set_override('remote_content_type', cur['content_type'],
-                              group='oslo_policy')
+            ct_ = cur['content_type']
+            if d.get('content_type_case_variant'):
+                variant = {CT_FORM: 'application/X-WWW-Form-URLencoded',
+                           CT_JSON: 'Application/JSON'}[ct_]
+                try:
+                    conf.set_override('remote_content_type', variant,
+                                      group='oslo_policy')
+                    if conf.oslo_policy.remote_content_type.lower() != ct_:
+                        raise ValueError(variant)
+                    cnt.hit('knob:content_type_case_variant_accepted')
+                    ct_ = None
+                except Exception:      # noqa - rejected: use the canonical
+                    cnt.hit('knob:content_type_case_variant_rejected')
+            if ct_ is not None:
+                conf.set_override('remote_content_type', ct_,
+                                  group='oslo_policy')
             tls_ = cur['tls']
             for key, opt, fn in (
                     ('crt', 'remote_ssl_client_crt_file',
@@ -417,8 +442,13 @@ def run_decision(d, dg=None, cnt=None):
         apply_options()
         tls = cur['tls']
         rules = d['rules']
-        e.set_rules(policy.Rules.from_dict(
-            {k: rast.show(v) for k, v in rules.items()}), use_conf=False)
+        enforce_name = d['pname']
+        text_rules = {k: rast.show(v) for k, v in rules.items()}
+        if d.get('via_default_rule'):
+            text_rules['default'] = text_rules.pop(d['pname'])
+            enforce_name = 'ghost:' + d['pname']
+            cnt.hit('knob:enforced_name_falls_back_to_default_rule')
+        e.set_rules(policy.Rules.from_dict(text_rules), use_conf=False)
         target, opaque = _materialise(d['target'])
         snapshot = {k: (v if k in opaque else copy.deepcopy(v))
                     for k, v in target.items()}
@@ -442,7 +472,7 @@ def run_decision(d, dg=None, cnt=None):
 
         def one_call(creds, creds_snapshot, roles_now, step_no):
             try:
-                got = T if e.enforce(d['pname'], target, creds) else F
+                got = T if e.enforce(enforce_name, target, creds) else F
             except simnet.SimStall:
                 got = 'HANG'
             except Exception as ex:      # noqa - outcome recorded
@@ -520,7 +550,7 @@ def run_decision(d, dg=None, cnt=None):
                 except Exception as ex:      # noqa
                     return viol('request-encoding',
                                 error=type(ex).__name__), simtime
-                if rule != d['pname']:
+                if rule != enforce_name:
                     return viol('payload-rule', sent=rule), simtime
                 if tg != json.loads(json.dumps(plain_target)):
                     return viol('payload-target', sent=tg), simtime
